@@ -99,7 +99,7 @@ func execStop(input string) Result {
 }
 
 var stopMoments = []string{"", "lq.inserted", "pre.in", "pre.done", "arch.in", "arch.fetch", "arch.written", "arch.done", "post.in", "post.done",
-	"fin.in", "fin.feedback", "fin.finished", "fin.notified", "lq.deleted", "paused"}
+	"fin.in", "fin.feedback", "fin.finished", "fin.notified", "lq.deleted", "paused", "paused", "paused"}
 
 func genStop(r *Rng, i int, tier string) string {
 	w := []int{1, 2, 2, 3, 4}[r.Intn(5)]
